@@ -62,6 +62,11 @@ def h_step(c, pkg, op, lens):
     name = op if isinstance(op, str) else 'NOP'
     if name in ('OP_CALL', 'OP_EVAL') and summ.bodies:
         c.check('nested_call_spends_budget', summ.bodies[0].callstack_count == st.pre_count + 1)
+    elif name in vmstep.NESTING_OPS:
+        # every other nested body (IF / ELSE / TRY / EXCEPT / LOOP / MERKLEVAL / TAPROOT) carries the budget already spent
+        for b in summ.bodies:
+            c.check('nested_body_carries_spent_budget', b.callstack_count >= st.pre_count, body=b.k, op=name)
+            c.check('nested_body_carries_limit', b.callstack_limit == tape.callstack_limit, body=b.k, op=name)
     if name == 'OP_LOOP':
         c.check('loop_iterations_within_limit', len(summ.bodies) <= tape.callstack_limit)
     # (iv) error classes
@@ -95,48 +100,22 @@ def eng_log():
 
 
 # ------------------------------------------------------------------------------ concrete side
-def _concrete_run(inputs, params):
-    """the same step on the real package with recording Stack / token_bytes"""
-    import tapescript
-    import tapescript.functions as RF
-    import tapescript.classes as RC
-    from collections import deque
-    op = params['op']
-    lens = params['lens']
-    mi = inputs.get('max_items', 1024)
-    ms = inputs.get('max_item_size', 1024)
-    stack = tapescript.Stack(max_items=mi, max_item_size=ms)
-    stack.deque = deque(maxlen=mi)
-    for i in range(len(lens)):
-        stack.deque.append(inputs.get(f's{i}', b''))
-    tape = tapescript.Tape(inputs['tape'], callstack_count=inputs.get('callstack_count', 0),
-                           callstack_limit=inputs.get('callstack_limit', 128))
-    RF.set_tape_flags(tape)
-    allocs = []
-    old_tb = RF.token_bytes
-
-    def rec_tb(n):
-        allocs.append(n)
-        if n > 1 << 20:
-            raise MemoryError('recorded instead of allocated')
-        return old_tb(n)
-    RF.token_bytes = rec_tb
-    try:
-        fn = RF.opcodes_inverse[op][1] if isinstance(op, str) else RF.NOP
-        cache = {'sigfield1': inputs.get('sigfield1', b''), 'sigfield2': inputs.get('sigfield2', b''),
-                 'timestamp': inputs.get('timestamp', 0)}
-        r = outcome_of(fn, tape, stack, cache)
-    finally:
-        RF.token_bytes = old_tb
-    return r, stack, tape, allocs, mi, ms
-
-
 def r_step(inputs, params, obligation):
-    if params['op'] in vmstep.NESTING_OPS:
-        return {'reproduced': False, 'error': 'replay of summarised nested runs not implemented'}
-    r, stack, tape, allocs, mi, ms = _concrete_run(inputs, params)
+    res = vmstep.concrete_generic_step(inputs, params)
+    r, stack, tape, allocs, mi, ms = res['r'], res['stack'], res['tape'], res['allocs'], res['max_items'], res['max_item_size']
+    bodies = res['summ'].bodies
+    name = params['op'] if isinstance(params['op'], str) else 'NOP'
     items = list(stack.deque)
     bad = {
+        'callstack_count_within_limit': tape.callstack_count > tape.callstack_limit,
+        'nested_count_within_limit': any(b.callstack_count > b.callstack_limit for b in bodies),
+        'nested_call_spends_budget': name in ('OP_CALL', 'OP_EVAL') and bool(bodies) and
+        bodies[0].callstack_count != res['pre_count'] + 1,
+        'nested_body_carries_spent_budget': name not in ('OP_CALL', 'OP_EVAL') and
+        any(b.callstack_count < res['pre_count'] for b in bodies),
+        'nested_body_carries_limit': name not in ('OP_CALL', 'OP_EVAL') and
+        any(b.callstack_limit != tape.callstack_limit for b in bodies),
+        'loop_iterations_within_limit': name == 'OP_LOOP' and len(bodies) > tape.callstack_limit,
         'stack_within_max_items': len(items) > mi,
         'item_within_max_item_size': any(len(x) > ms for x in items),
         'items_within_max_item_size': any(len(x) > ms for x in items),
